@@ -8,20 +8,30 @@ package c15
 // strings, other creators' denoms, module-account targets, hand-overs followed by retries of the
 // old admin.
 //
+// MESSAGE CARRIERS: any of these messages may ride inside authz MsgExec wrappers (any depth, grantee =
+// the signer of the inner message or somebody else, with or without an authz grant made earlier in
+// the history), be dispatched by a CosmWasm contract (reflect.wasm, owner = user 0, re-dispatches
+// Stargate messages through app/wasmext's message handler), or both (contract-dispatched MsgExec,
+// MsgExecuteContract inside MsgExec).  MsgGrant / MsgRevoke (generic authorizations) are messages of
+// the history too.  The contract is account 8: it can be a denom's creator / admin / successor.
+//
 // Observables: per message accepted?; before the first and after every message a snapshot of
 // bank supply per tracked denom, balances per (tracked account, tracked denom), admin per tracked
 // denom.  Every bech32 address is rewritten to "@i" (all-upper-case spelling: "@Ui").
 
 import (
+	"encoding/base64"
 	"encoding/json"
 	"fmt"
 	"math/rand"
+	"os"
 	"sort"
 	"strings"
 	"testing"
 	"time"
 
 	sdkmath "cosmossdk.io/math"
+	wasmtypes "github.com/CosmWasm/wasmd/x/wasm/types"
 	abci "github.com/cometbft/cometbft/abci/types"
 	"github.com/cosmos/cosmos-sdk/crypto/keys/secp256k1"
 	cryptotypes "github.com/cosmos/cosmos-sdk/crypto/types"
@@ -29,6 +39,9 @@ import (
 	"github.com/cosmos/cosmos-sdk/testutil/sims"
 	sdk "github.com/cosmos/cosmos-sdk/types"
 	authtypes "github.com/cosmos/cosmos-sdk/x/auth/types"
+	"github.com/cosmos/cosmos-sdk/x/authz"
+	authzkeeper "github.com/cosmos/cosmos-sdk/x/authz/keeper"
+	"github.com/cosmos/gogoproto/proto"
 	banktypes "github.com/cosmos/cosmos-sdk/x/bank/types"
 	govtypes "github.com/cosmos/cosmos-sdk/x/gov/types"
 
@@ -43,13 +56,17 @@ const nUsers = 4
 
 // accounts 0..3 users, 4 tokenfactory module, 5 fee collector, 6 gov module (not blocked),
 // 7 an address that is never funded: it has no x/auth account (accounts are created lazily) unless
-// somebody mints to it; it never signs
-const nAccts = 8
+// somebody mints to it; it never signs; 8 the reflect contract of the case (owner = user 0)
+const nAccts = 9
 const ghost = 7
+const idContract = 8
+
+// accounts that can stand behind a message: the users and the contract
+var principals = []int{0, 1, 2, 3, idContract}
 
 type c15Op struct {
-	T        string `json:"t"` // create | mint | burn | admin | meta | burnnative
-	Sender   int    `json:"sender"`
+	T        string `json:"t"` // create | mint | burn | admin | meta | burnnative | reimport | exec | wasm | grant | revoke
+	Sender   int    `json:"sender"` // leaf: sender; grant / revoke: granter
 	Sub      string `json:"sub,omitempty"`
 	Denom    string `json:"denom,omitempty"`     // canonical ("tf/@1/gold")
 	Amt      int64  `json:"amt,omitempty"`
@@ -57,6 +74,9 @@ type c15Op struct {
 	NewAdmin string `json:"new_admin,omitempty"` // "@i" | "@Ui" | anything else = unparsable
 	BadMeta  bool   `json:"bad_meta,omitempty"`
 	Join     bool   `json:"join,omitempty"` // this message rides in the same tx as the previous one
+	G        int     `json:"g,omitempty"`   // exec: grantee; wasm: sender of MsgExecuteContract; grant / revoke: grantee
+	K        string  `json:"k,omitempty"`   // grant / revoke: message kind (create|mint|burn|admin|meta|burnnative|exec|wasm|grant|revoke)
+	C        []c15Op `json:"c,omitempty"`   // exec / wasm: the messages carried
 }
 
 type c15Gen struct {
@@ -74,6 +94,13 @@ type c15Snap struct {
 	Supply [][2]string  `json:"supply"` // denom, amount
 	Bal    [][3]string  `json:"bal"`    // account, denom, amount
 	Admin  [][2]*string `json:"admin"`  // denom, admin or null
+	Grants []c15Grant   `json:"grants"` // authz grants among the principals, sorted
+}
+
+type c15Grant struct {
+	From int    `json:"from"`
+	To   int    `json:"to"`
+	K    string `json:"k"`
 }
 
 type c15OpObs struct {
@@ -83,7 +110,9 @@ type c15OpObs struct {
 	NAValid bool    `json:"na_valid"` // new admin parses
 	MDValid bool    `json:"md_valid"` // bank metadata validates
 	Target  string  `json:"target"`   // "" default | canonical account | "!" unparsable
-	Snap    c15Snap `json:"snap"`
+	Signer  int        `json:"signer"`      // account id of GetSigners()[0] (99: none of the case's accounts)
+	C       []c15OpObs `json:"c,omitempty"` // flags of the carried messages
+	Snap    *c15Snap   `json:"snap,omitempty"` // top-level messages only: after the tx
 }
 
 type c15Obs struct {
@@ -99,6 +128,48 @@ type c15World struct {
 	privs  []cryptotypes.PrivKey
 	addrs  []sdk.AccAddress // nAccts
 	caseNo int
+	codeID uint64
+	authz  authzkeeper.Keeper // a reader over the app's authz store
+}
+
+var reflectCode []byte
+var dbg = os.Getenv("C15_DEBUG") != ""
+
+func repoDir() string {
+	if d := os.Getenv("VERIF_REPO"); d != "" {
+		return d
+	}
+	return "/repo"
+}
+
+// newC15World starts a chain and stores the reflect contract code once; every case instantiates its own contract.
+func newC15World(t *testing.T, caseNo int) *c15World {
+	w := &c15World{c: NewChain(nil), caseNo: caseNo}
+	c := w.c
+	for _, sk := range c.App.GetStoreKeys() {
+		if sk.Name() == authzkeeper.StoreKey {
+			w.authz = authzkeeper.NewKeeper(sk, c.App.AppCodec(), c.App.MsgServiceRouter(), c.App.AccountKeeper)
+		}
+	}
+	c.BeginBlock(5 * time.Second)
+	if reflectCode == nil {
+		bz, err := os.ReadFile(repoDir() + "/x/devgas/v1/keeper/testdata/reflect.wasm")
+		if err != nil {
+			t.Fatal(err)
+		}
+		reflectCode = bz
+	}
+	uploader := sdk.AccAddress([]byte("c15-uploader________"))
+	store := &wasmtypes.MsgStoreCode{Sender: uploader.String(), WASMByteCode: reflectCode}
+	rsp, err := c.App.MsgServiceRouter().Handler(store)(c.Ctx(), store)
+	if err != nil {
+		t.Fatal(err)
+	}
+	var sr wasmtypes.MsgStoreCodeResponse
+	_ = c.App.AppCodec().Unmarshal(rsp.Data, &sr)
+	w.codeID = sr.CodeID
+	c.EndBlock()
+	return w
 }
 
 func (w *c15World) freshActors(t *testing.T) {
@@ -116,6 +187,110 @@ func (w *c15World) freshActors(t *testing.T) {
 	w.addrs = append(w.addrs, authtypes.NewModuleAddress(tftypes.ModuleName),
 		authtypes.NewModuleAddress(authtypes.FeeCollectorName), authtypes.NewModuleAddress(govtypes.ModuleName),
 		sdk.AccAddress(secp256k1.GenPrivKeyFromSecret([]byte(fmt.Sprintf("c15-ghost-%d", w.caseNo))).PubKey().Address()))
+	// the case's own reflect contract, owner = user 0
+	c := w.c
+	inst := &wasmtypes.MsgInstantiateContract{Sender: w.addrs[0].String(), CodeID: w.codeID, Label: fmt.Sprintf("reflect-%d", w.caseNo), Msg: []byte(`{}`)}
+	rsp, err := c.App.MsgServiceRouter().Handler(inst)(c.Ctx(), inst)
+	if err != nil {
+		t.Fatal(err)
+	}
+	var ir wasmtypes.MsgInstantiateContractResponse
+	_ = c.App.AppCodec().Unmarshal(rsp.Data, &ir)
+	contract := sdk.MustAccAddressFromBech32(ir.Address)
+	w.addrs = append(w.addrs, contract)
+	if err := c.Fund(contract, sdk.NewCoins(sdk.NewInt64Coin("unibi", 1000))); err != nil {
+		t.Fatal(err)
+	}
+}
+
+func (w *c15World) idOf(a sdk.AccAddress) int {
+	for i, x := range w.addrs {
+		if x.Equals(a) {
+			return i
+		}
+	}
+	return 99
+}
+
+func kindURL(k string) string {
+	switch k {
+	case "create":
+		return sdk.MsgTypeURL(&tftypes.MsgCreateDenom{})
+	case "mint":
+		return sdk.MsgTypeURL(&tftypes.MsgMint{})
+	case "burn":
+		return sdk.MsgTypeURL(&tftypes.MsgBurn{})
+	case "admin":
+		return sdk.MsgTypeURL(&tftypes.MsgChangeAdmin{})
+	case "meta":
+		return sdk.MsgTypeURL(&tftypes.MsgSetDenomMetadata{})
+	case "burnnative":
+		return sdk.MsgTypeURL(&tftypes.MsgBurnNative{})
+	case "exec":
+		return sdk.MsgTypeURL(&authz.MsgExec{})
+	case "wasm":
+		return sdk.MsgTypeURL(&wasmtypes.MsgExecuteContract{})
+	case "grant":
+		return sdk.MsgTypeURL(&authz.MsgGrant{})
+	case "revoke":
+		return sdk.MsgTypeURL(&authz.MsgRevoke{})
+	}
+	return ""
+}
+
+var allKinds = []string{"create", "mint", "burn", "admin", "meta", "burnnative", "exec", "wasm", "grant", "revoke"}
+
+func isCarrier(t string) bool { return t == "exec" || t == "wasm" }
+
+// buildTree builds a message with everything it carries.
+func (w *c15World) buildTree(op c15Op) (sdk.Msg, c15OpObs, error) {
+	var msg sdk.Msg
+	var o c15OpObs
+	switch op.T {
+	case "exec", "wasm":
+		var ms []sdk.Msg
+		for _, ch := range op.C {
+			m, co, err := w.buildTree(ch)
+			if err != nil {
+				return nil, o, err
+			}
+			ms = append(ms, m)
+			o.C = append(o.C, co)
+		}
+		if op.T == "exec" {
+			e := authz.NewMsgExec(w.addrs[op.G], ms)
+			msg = &e
+		} else {
+			parts := []string{}
+			for _, m := range ms {
+				bz, err := proto.Marshal(m)
+				if err != nil {
+					return nil, o, err
+				}
+				parts = append(parts, fmt.Sprintf(`{"stargate":{"type_url":"%s","value":"%s"}}`, sdk.MsgTypeURL(m), base64.StdEncoding.EncodeToString(bz)))
+			}
+			payload := `{"reflect_msg":{"msgs":[` + strings.Join(parts, ",") + `]}}`
+			msg = &wasmtypes.MsgExecuteContract{Sender: w.addrs[op.G].String(), Contract: w.addrs[idContract].String(), Msg: []byte(payload)}
+		}
+	case "grant":
+		g, err := authz.NewMsgGrant(w.addrs[op.Sender], w.addrs[op.G], authz.NewGenericAuthorization(kindURL(op.K)), nil)
+		if err != nil {
+			return nil, o, err
+		}
+		msg = g
+	case "revoke":
+		r := authz.NewMsgRevoke(w.addrs[op.Sender], w.addrs[op.G], kindURL(op.K))
+		msg = &r
+	default:
+		msg, o = w.build(op)
+	}
+	o.Signer = 99
+	Recover(func() {
+		if sg := msg.GetSigners(); len(sg) > 0 {
+			o.Signer = w.idOf(sg[0])
+		}
+	})
+	return msg, o, nil
 }
 
 // reimport: the module's genesis is exported, the module store emptied, and the exported genesis
@@ -238,7 +413,29 @@ func (w *c15World) deliver(msgs []sdk.Msg, senders []int) abci.ResponseDeliverTx
 // entries (nil = all)
 func (w *c15World) snapshot(denoms []string) c15Snap {
 	ctx := w.c.Ctx()
-	sn := c15Snap{Supply: [][2]string{}, Bal: [][3]string{}, Admin: [][2]*string{}}
+	sn := c15Snap{Supply: [][2]string{}, Bal: [][3]string{}, Admin: [][2]*string{}, Grants: []c15Grant{}}
+	for _, from := range principals {
+		for _, to := range principals {
+			if from == to {
+				continue
+			}
+			for _, k := range allKinds {
+				if a, _ := w.authz.GetAuthorization(ctx, w.addrs[to], w.addrs[from], kindURL(k)); a != nil {
+					sn.Grants = append(sn.Grants, c15Grant{From: from, To: to, K: k})
+				}
+			}
+		}
+	}
+	sort.Slice(sn.Grants, func(i, j int) bool {
+		a, b := sn.Grants[i], sn.Grants[j]
+		if a.From != b.From {
+			return a.From < b.From
+		}
+		if a.To != b.To {
+			return a.To < b.To
+		}
+		return a.K < b.K
+	})
 	for _, cd := range denoms {
 		d := w.expand(cd)
 		sup := "0"
@@ -261,17 +458,69 @@ func (w *c15World) snapshot(denoms []string) c15Snap {
 	return sn
 }
 
-func normaliseOp(op *c15Op) {
-	op.Sender = ((op.Sender % nUsers) + nUsers) % nUsers
+// principal: a user, or (below the top level, where nobody has to hold its key) the contract
+func principal(id int, top bool) int {
+	if id == idContract && !top {
+		return id
+	}
+	return ((id % nUsers) + nUsers) % nUsers
+}
+
+const maxDepth = 6
+
+func normaliseOp(op *c15Op, top bool, depth int) {
+	if !top {
+		op.Join = false
+	}
 	switch op.T {
 	case "create", "mint", "burn", "admin", "meta", "burnnative":
 	case "reimport":
-		op.Join, op.Denom = false, ""
+		if top {
+			op.Join, op.Denom, op.C = false, "", nil
+			return
+		}
+		op.T = "burnnative"
+	case "exec", "wasm":
+		if depth >= maxDepth {
+			op.T, op.C = "burnnative", nil
+			break
+		}
+		op.G = principal(op.G, top)
+		if len(op.C) > 4 {
+			op.C = op.C[:4]
+		}
+		for i := range op.C {
+			normaliseOp(&op.C[i], false, depth+1)
+		}
+		op.Sender, op.Denom = 0, ""
+		return
+	case "grant", "revoke":
+		op.Sender, op.G = principal(op.Sender, top), principal(op.G, false)
+		if kindURL(op.K) == "" {
+			op.K = "mint"
+		}
+		op.Denom, op.C = "", nil
+		return
 	default:
 		op.T = "burnnative"
 	}
+	op.C = nil
+	op.Sender = principal(op.Sender, top)
 	if op.T == "create" {
 		op.Denom = fmt.Sprintf("tf/@%d/%s", op.Sender, op.Sub)
+	}
+}
+
+// leafDenoms: the denoms named by the token-factory messages of a tree
+func leafDenoms(op *c15Op, add func(string)) {
+	switch op.T {
+	case "exec", "wasm":
+		for i := range op.C {
+			leafDenoms(&op.C[i], add)
+		}
+	case "grant", "revoke", "reimport":
+	default:
+		add(op.Denom)
 	}
 }
 
@@ -318,7 +567,7 @@ func (w *c15World) runCase(t *testing.T, cs *c15Case) c15Obs {
 		}
 		c.App.TokenFactoryKeeper.InitGenesis(c.Ctx(), gs)
 		for _, g := range cs.Genesis {
-			for u := 0; u < nAccts && u < len(g.Fund); u++ {
+			for u := 0; u < ghost && u < len(g.Fund); u++ {
 				if g.Fund[u] <= 0 {
 					continue
 				}
@@ -339,10 +588,8 @@ func (w *c15World) runCase(t *testing.T, cs *c15Case) c15Obs {
 		}
 	}
 	for i := range cs.Ops {
-		normaliseOp(&cs.Ops[i])
-		if cs.Ops[i].T != "reimport" {
-			add(cs.Ops[i].Denom)
-		}
+		normaliseOp(&cs.Ops[i], true, 0)
+		leafDenoms(&cs.Ops[i], add)
 	}
 	obs.Init = w.snapshot(denoms)
 	if len(cs.Ops) > 0 {
@@ -361,21 +608,42 @@ func (w *c15World) runCase(t *testing.T, cs *c15Case) c15Obs {
 				cs.Ops[k].Join = false
 			}
 			w.reimport()
-			obs.Ops = append(obs.Ops, c15OpObs{OK: true, Snap: w.snapshot(denoms)})
+			sn := w.snapshot(denoms)
+			obs.Ops = append(obs.Ops, c15OpObs{OK: true, Snap: &sn})
 			i++
 			continue
 		}
 		var msgs []sdk.Msg
 		var senders []int
 		var os []c15OpObs
+		unsignable := false
 		for _, op := range cs.Ops[i:j] {
-			msg, o := w.build(op)
-			msgs, senders, os = append(msgs, msg), append(senders, op.Sender), append(os, o)
+			msg, o, err := w.buildTree(op)
+			if err != nil {
+				t.Fatalf("c15: cannot build a message: %v", err)
+			}
+			msgs, os = append(msgs, msg), append(os, o)
+			if o.Signer >= 0 && o.Signer < nUsers {
+				senders = append(senders, o.Signer)
+			} else {
+				// GetSigners names an account nobody holds a key of (never so on the unchanged tree: normaliseOp keeps
+				// top-level signers among the users): the tx cannot be signed
+				unsignable = true
+			}
 		}
-		r := w.deliver(msgs, senders)
+		var r abci.ResponseDeliverTx
+		if unsignable {
+			r = abci.ResponseDeliverTx{Code: 9997, Log: "a top-level signer holds no key"}
+		} else if p := Recover(func() { r = w.deliver(msgs, senders) }); p != "" {
+			r = abci.ResponseDeliverTx{Code: 9998, Log: "panic: " + p}
+		}
+		if dbg {
+			fmt.Printf("tx %d..%d code=%d log=%.300s\n", i, j, r.Code, r.Log)
+		}
 		sn := w.snapshot(denoms)
 		for _, o := range os { // every message of a tx carries the tx's outcome and the snapshot after the tx
-			o.OK, o.Code, o.Snap = r.Code == 0, r.Code, sn
+			snc := sn
+			o.OK, o.Code, o.Snap = r.Code == 0, r.Code, &snc
 			obs.Ops = append(obs.Ops, o)
 		}
 		i = j
@@ -391,7 +659,7 @@ func (w *c15World) runCase(t *testing.T, cs *c15Case) c15Obs {
 	}
 	mark(obs.Init)
 	for _, o := range obs.Ops {
-		mark(o.Snap)
+		mark(*o.Snap)
 	}
 	filter := func(s *c15Snap) {
 		out := [][3]string{}
@@ -404,7 +672,7 @@ func (w *c15World) runCase(t *testing.T, cs *c15Case) c15Obs {
 	}
 	filter(&obs.Init)
 	for i := range obs.Ops {
-		filter(&obs.Ops[i].Snap)
+		filter(obs.Ops[i].Snap)
 	}
 	return obs
 }
@@ -772,6 +1040,96 @@ func genC15Case(r *Rng) c15Case {
 			}
 		}
 	}
+	// MESSAGE CARRIERS.  (a) somebody who is not the admin tries to act as the admin through a carrier: a
+	// contract-dispatched MsgExec that names the admin as grantee, a plain contract dispatch, a MsgExec by a
+	// third party without a grant, deeper nestings of these — and the legitimate variants (grant first)
+	if len(g.denoms) > 0 && r.Chance(34, 100) {
+		sd := g.denoms[r.Intn(len(g.denoms))]
+		if sd.admin >= 0 && sd.admin < nUsers {
+			a := sd.admin
+			holder := fmt.Sprintf("@%d", a)
+			if len(sd.holders) > 0 {
+				holder = sd.holders[r.Intn(len(sd.holders))]
+			}
+			leaf := func() c15Op {
+				switch r.Pick(5, 3, 2, 1) {
+				case 1:
+					return c15Op{T: "burn", Sender: a, Denom: sd.denom, Amt: int64(r.Range(1, 20)), Target: holder}
+				case 2:
+					return c15Op{T: "admin", Sender: a, Denom: sd.denom, NewAdmin: []string{"@8", fmt.Sprintf("@%d", r.Intn(nUsers))}[r.Intn(2)]}
+				case 3:
+					return c15Op{T: "meta", Sender: a, Denom: sd.denom}
+				}
+				return c15Op{T: "mint", Sender: a, Denom: sd.denom, Amt: int64(r.Range(1, 1000)), Target: []string{"@8", "", fmt.Sprintf("@%d", r.Intn(nUsers))}[r.Intn(3)]}
+			}
+			third := (a + 1 + r.Intn(nUsers-1)) % nUsers
+			for k := r.Range(2, 5); k > 0; k-- {
+				l := leaf()
+				switch r.Pick(30, 12, 10, 10, 8, 10, 10, 10) {
+				case 0: // the contract dispatches a MsgExec that names the admin as grantee
+					cs.Ops = append(cs.Ops, wa(0, ex(a, l)))
+				case 1: // … nested once more
+					cs.Ops = append(cs.Ops, wa(0, ex(a, ex(a, l))))
+				case 2: // the contract dispatches the admin's message as it is
+					cs.Ops = append(cs.Ops, wa(0, l))
+				case 3: // a third party's MsgExec without a grant
+					cs.Ops = append(cs.Ops, ex(third, l))
+				case 4: // the contract call itself rides in a MsgExec
+					cs.Ops = append(cs.Ops, ex(0, wa(0, ex(a, l))))
+				case 5: // legitimate: the admin grants the contract that message type, the contract execs as itself
+					cs.Ops = append(cs.Ops, grantOp(a, idContract, l.T), wa(0, ex(idContract, l)), wa(0, ex(a, l)))
+					if r.Chance(1, 2) {
+						cs.Ops = append(cs.Ops, revokeOp(a, idContract, l.T), wa(0, ex(idContract, l)))
+					}
+				case 6: // legitimate: the admin grants a third party, which execs (also nested in its own MsgExec)
+					cs.Ops = append(cs.Ops, grantOp(a, third, l.T), ex(third, l), ex(third, ex(third, leaf())))
+				default: // a MsgExec signed by the admin itself, with a second message of somebody else inside
+					other := c15Op{T: "burnnative", Sender: third, Denom: "unibi", Amt: 1}
+					if r.Chance(1, 2) {
+						other = c15Op{T: "burnnative", Sender: a, Denom: "unibi", Amt: 1}
+					}
+					cs.Ops = append(cs.Ops, ex(a, l, other))
+				}
+			}
+			// afterwards whoever is the admin on record still is the admin
+			cs.Ops = append(cs.Ops, c15Op{T: "mint", Sender: a, Denom: sd.denom, Amt: int64(r.Range(1, 9))})
+		}
+	}
+	// (b) the contract as creator / admin / successor / granter of a denom
+	if r.Chance(22, 100) {
+		sub := subs[r.Intn(4)]
+		d := fmt.Sprintf("tf/@%d/%s", idContract, sub)
+		sd := &shadowDenom{denom: d, admin: idContract}
+		u := r.Intn(nUsers)
+		cs.Ops = append(cs.Ops, wa(0, c15Op{T: "create", Sender: idContract, Sub: sub}),
+			wa(0, c15Op{T: "mint", Sender: idContract, Denom: d, Amt: int64(r.Range(20, 200)), Target: fmt.Sprintf("@%d", u)}))
+		sd.holders = append(sd.holders, fmt.Sprintf("@%d", u))
+		g.denoms = append(g.denoms, sd)
+		for k := r.Range(2, 5); k > 0; k-- {
+			l := c15Op{T: "mint", Sender: idContract, Denom: d, Amt: int64(r.Range(1, 30))}
+			if r.Chance(1, 3) {
+				l = c15Op{T: "burn", Sender: idContract, Denom: d, Amt: int64(r.Range(1, 10)), Target: fmt.Sprintf("@%d", u)}
+			}
+			switch r.Pick(10, 10, 10, 10, 10, 8, 8) {
+			case 0:
+				cs.Ops = append(cs.Ops, wa(0, ex(idContract, l)))
+			case 1:
+				cs.Ops = append(cs.Ops, ex(u, l)) // a user's MsgExec of the contract's message, no grant
+			case 2:
+				cs.Ops = append(cs.Ops, wa(0, grantOp(idContract, u, l.T)), ex(u, l))
+			case 3:
+				l.Sender = u // a user names itself on the contract's denom
+				cs.Ops = append(cs.Ops, l)
+			case 4:
+				cs.Ops = append(cs.Ops, wa(r.Range(1, nUsers-1), l)) // not the contract's owner
+			case 5: // hand-over to a user, then back
+				cs.Ops = append(cs.Ops, wa(0, c15Op{T: "admin", Sender: idContract, Denom: d, NewAdmin: fmt.Sprintf("@%d", u)}), wa(0, l),
+					c15Op{T: "mint", Sender: u, Denom: d, Amt: 3}, c15Op{T: "admin", Sender: u, Denom: d, NewAdmin: "@8"}, wa(0, l))
+			default:
+				cs.Ops = append(cs.Ops, wa(0, l, c15Op{T: "burnnative", Sender: idContract, Denom: "unibi", Amt: 1}))
+			}
+		}
+	}
 	for len(cs.Ops) < n {
 		op := g.op()
 		if r.Chance(4, 100) {
@@ -781,7 +1139,75 @@ func genC15Case(r *Rng) c15Case {
 		}
 		cs.Ops = append(cs.Ops, op)
 	}
+	// (c) any message of the history may ride in a carrier
+	var out []c15Op
+	for _, op := range cs.Ops {
+		if op.T == "reimport" || isCarrier(op.T) || op.T == "grant" || op.T == "revoke" {
+			out = append(out, op)
+			continue
+		}
+		if op.Sender == idContract {
+			j := op.Join
+			op.Join = false
+			w := wa(0, op)
+			w.Join = j
+			out = append(out, w)
+			continue
+		}
+		if !r.Chance(16, 100) {
+			out = append(out, op)
+			continue
+		}
+		out = append(out, g.wrap(op)...)
+	}
+	cs.Ops = out
 	return cs
+}
+
+// wrap puts a user's message into a random chain of carriers (grants, when made, go first as txs of their own)
+func (g *c15Gen2) wrap(op c15Op) []c15Op {
+	r := g.r
+	s := op.Sender
+	join := op.Join
+	op.Join = false
+	other := (s + 1 + r.Intn(nUsers-1)) % nUsers
+	var pre []c15Op
+	var t c15Op
+	switch r.Pick(24, 14, 14, 14, 8, 10, 6, 10) {
+	case 0: // the sender's own MsgExec, depth 1-3
+		t = ex(s, op)
+		for k := r.Intn(3); k > 0; k-- {
+			t = ex(s, t)
+		}
+	case 1: // somebody else's MsgExec, no grant
+		t = ex(other, op)
+	case 2: // somebody else's MsgExec after a grant (sometimes for another message type)
+		k := op.T
+		if r.Chance(1, 4) {
+			k = allKinds[r.Intn(len(allKinds))]
+		}
+		pre = append(pre, grantOp(s, other, k))
+		t = ex(other, op)
+	case 3: // two levels with different grantees: the inner MsgExec needs a grant of its own
+		third := (other + 1 + r.Intn(nUsers-1)) % nUsers
+		if r.Chance(1, 2) {
+			pre = append(pre, grantOp(s, other, op.T))
+		}
+		if r.Chance(1, 2) {
+			pre = append(pre, grantOp(other, third, "exec"))
+		}
+		t = ex(third, ex(other, op))
+	case 4: // dispatched by the contract as it is
+		t = wa(0, op)
+	case 5: // dispatched by the contract inside a MsgExec naming the sender
+		t = wa(0, ex(s, op))
+	case 6: // the contract is called by somebody who is not its owner
+		t = wa(r.Range(1, nUsers-1), ex(s, op))
+	default: // several messages in one MsgExec
+		t = ex(s, op, c15Op{T: "burnnative", Sender: []int{s, other}[r.Intn(2)], Denom: "unibi", Amt: 1})
+	}
+	t.Join = join && len(pre) == 0
+	return append(pre, t)
 }
 
 func perm(r *Rng, n int) []int {
@@ -796,9 +1222,57 @@ func perm(r *Rng, n int) []int {
 	return p
 }
 
+func ex(g int, c ...c15Op) c15Op { return c15Op{T: "exec", G: g, C: c} }
+func wa(g int, c ...c15Op) c15Op { return c15Op{T: "wasm", G: g, C: c} }
+func grantOp(from, to int, k string) c15Op  { return c15Op{T: "grant", Sender: from, G: to, K: k} }
+func revokeOp(from, to int, k string) c15Op { return c15Op{T: "revoke", Sender: from, G: to, K: k} }
+
 func openers() []c15Case {
 	D := "tf/@0/gold"
+	S := "tf/@1/silver"
+	C := "tf/@8/gold"
 	return []c15Case{
+		// carriers: MsgExec by the admin itself, by somebody else without / with / after a revoked grant, nested;
+		// a contract that dispatches the admin's messages (directly, or wrapped in a MsgExec naming the admin)
+		{Genesis: []c15Gen{}, Ops: []c15Op{
+			{T: "create", Sender: 1, Sub: "silver"}, {T: "mint", Sender: 1, Denom: S, Amt: 100}, {T: "mint", Sender: 1, Denom: S, Amt: 60, Target: "@3"},
+			ex(1, c15Op{T: "mint", Sender: 1, Denom: S, Amt: 5}),
+			ex(2, c15Op{T: "mint", Sender: 1, Denom: S, Amt: 5}),
+			grantOp(1, 2, "mint"),
+			ex(2, c15Op{T: "mint", Sender: 1, Denom: S, Amt: 5}),
+			ex(2, c15Op{T: "burn", Sender: 1, Denom: S, Amt: 5}),
+			ex(2, ex(2, c15Op{T: "mint", Sender: 1, Denom: S, Amt: 7})),
+			ex(3, ex(2, c15Op{T: "mint", Sender: 1, Denom: S, Amt: 7})),
+			revokeOp(1, 2, "mint"),
+			ex(2, c15Op{T: "mint", Sender: 1, Denom: S, Amt: 5}),
+			wa(0, c15Op{T: "mint", Sender: 1, Denom: S, Amt: 5}),
+			wa(0, ex(1, c15Op{T: "mint", Sender: 1, Denom: S, Amt: 1000, Target: "@8"})),
+			wa(0, ex(1, c15Op{T: "burn", Sender: 1, Denom: S, Amt: 60, Target: "@3"})),
+			wa(0, ex(1, c15Op{T: "admin", Sender: 1, Denom: S, NewAdmin: "@8"})),
+			wa(0, ex(1, ex(1, c15Op{T: "mint", Sender: 1, Denom: S, Amt: 9}))),
+			ex(0, wa(0, ex(1, c15Op{T: "mint", Sender: 1, Denom: S, Amt: 9}))),
+			wa(1, c15Op{T: "burnnative", Sender: 8, Denom: "unibi", Amt: 1}),
+			{T: "mint", Sender: 1, Denom: S, Amt: 1}}},
+		// the contract as creator / admin / granter / successor
+		{Genesis: []c15Gen{}, Ops: []c15Op{
+			wa(0, c15Op{T: "create", Sender: 8, Sub: "gold"}), wa(0, c15Op{T: "mint", Sender: 8, Denom: C, Amt: 50, Target: "@1"}),
+			{T: "mint", Sender: 1, Denom: C, Amt: 5}, {T: "mint", Sender: 0, Denom: C, Amt: 5},
+			wa(0, ex(8, c15Op{T: "mint", Sender: 8, Denom: C, Amt: 5})),
+			wa(0, ex(8, ex(8, c15Op{T: "burn", Sender: 8, Denom: C, Amt: 5, Target: "@1"}))),
+			ex(2, c15Op{T: "mint", Sender: 8, Denom: C, Amt: 5}),
+			wa(0, grantOp(8, 2, "mint")),
+			ex(2, c15Op{T: "mint", Sender: 8, Denom: C, Amt: 5}),
+			ex(2, c15Op{T: "admin", Sender: 8, Denom: C, NewAdmin: "@2"}),
+			wa(0, c15Op{T: "admin", Sender: 8, Denom: C, NewAdmin: "@1"}),
+			wa(0, c15Op{T: "mint", Sender: 8, Denom: C, Amt: 5}), ex(2, c15Op{T: "mint", Sender: 8, Denom: C, Amt: 5}),
+			{T: "mint", Sender: 1, Denom: C, Amt: 5},
+			{T: "admin", Sender: 1, Denom: C, NewAdmin: "@8"},
+			wa(0, c15Op{T: "mint", Sender: 8, Denom: C, Amt: 5}, c15Op{T: "burnnative", Sender: 8, Denom: C, Amt: 2}),
+			grantOp(1, 8, "burn"),
+			{T: "create", Sender: 1, Sub: "silver"}, {T: "mint", Sender: 1, Denom: S, Amt: 60, Target: "@3"},
+			wa(0, ex(8, c15Op{T: "burn", Sender: 1, Denom: S, Amt: 10, Target: "@3"})),
+			wa(0, ex(8, c15Op{T: "mint", Sender: 1, Denom: S, Amt: 10})),
+			wa(0, ex(1, c15Op{T: "burn", Sender: 1, Denom: S, Amt: 10, Target: "@3"}))}},
 		// hand-over, then the old admin retries everything
 		{Genesis: []c15Gen{}, Ops: []c15Op{
 			{T: "create", Sender: 0, Sub: "gold"}, {T: "mint", Sender: 0, Denom: D, Amt: 100},
@@ -876,10 +1350,10 @@ func TestC15(t *testing.T) {
 	cfg := LoadCfg(t, 160, 3000)
 	em := NewEmitter(t, cfg.Out)
 	defer em.Close()
-	w := &c15World{c: NewChain(nil)}
+	w := newC15World(t, 0)
 	run := func(cs c15Case) {
-		if w.caseNo > 0 && w.caseNo%400 == 0 {
-			w = &c15World{c: NewChain(nil), caseNo: w.caseNo}
+		if w.caseNo > 0 && w.caseNo%200 == 0 {
+			w = newC15World(t, w.caseNo)
 		}
 		obs := w.runCase(t, &cs)
 		em.Emit(cs, obs, nil)
